@@ -72,6 +72,56 @@ class Machine:
         self.configs = set()
         self.cursor_reads = []
         self._auto_inline()
+        self.local_arrays = {}
+        self._auto_counters()
+
+    def _auto_counters(self):
+        """integer locals that live across iterations (declared outside the character loop with a constant initial value), are
+        only ever set to constants or stepped by constants, and index a fixed-size local array are followed exactly (clamped
+        just above the largest array they index); every indexed access of such an array with a known index is bounds-checked"""
+        f = self.f
+        inside = set(id(x) for x in ir.walk_stmts(self.loop['body']))
+        arrays, cands = {}, {}
+        for s_ in ir.walk_stmts(f['body']):
+            if s_.get('k') != 'decl':
+                continue
+            for v in s_['vars']:
+                tv = T(f, v['t'])
+                ini = strip(v.get('init') or {})
+                if (tv.get('arr') is not None or tv.get('n') is not None) and tv.get('n') and not tv.get('ptr') and ini.get('k') != 'str' and not tv.get('const'):
+                    arrays[v['id']] = (tv['n'], v.get('n'))
+                elif id(s_) not in inside and tv.get('int') and not tv.get('ptr') and v.get('init') is not None and const_val(v['init']) is not None and v.get('n') not in self.d['tracked']:
+                    cands[v['id']] = (v.get('n'), const_val(v['init']))
+        self.local_arrays = arrays
+        if not arrays or not cands:
+            return
+        uses = {}
+        for e in fn_exprs(f):
+            if e.get('k') == 'idx':
+                b = strip(e['b'])
+                if b.get('k') == 'var' and b.get('id') in arrays:
+                    for w in walk_expr(e['i']):
+                        if w.get('k') == 'var' and w.get('id') in cands:
+                            uses.setdefault(w['id'], set()).add(b['id'])
+        for vid, arrs in uses.items():
+            name, init = cands[vid]
+            ok = True
+            for e in fn_exprs(f):
+                tgt = None
+                if e.get('k') == 'bin' and e.get('op', '').endswith('=') and e['op'] not in ('==', '!=', '<=', '>='):
+                    tgt = strip_lv(e['x'])
+                    if tgt.get('k') == 'var' and tgt.get('id') == vid and const_val(e['y']) is None:
+                        ok = False
+                elif e.get('k') == 'un' and e.get('op') == '&':
+                    tgt = strip_lv(e['e'])
+                    if tgt.get('k') == 'var' and tgt.get('id') == vid:
+                        ok = False
+            # the name must be unique among the function's locals (tracked locals are keyed by name)
+            if sum(1 for s_ in ir.walk_stmts(f['body']) if s_.get('k') == 'decl' for v in s_['vars'] if v.get('n') == name) != 1:
+                ok = False
+            if ok:
+                self.d['tracked'][name] = ('local', init)
+                self.d.setdefault('clamp', {})[name] = (-1, max(arrays[a][0] for a in arrs) + 1)
 
     def _auto_inline(self):
         """helpers of the parser's own class that touch the tracked state (assign a tracked member, push / pop a tracked stack, or
@@ -383,6 +433,11 @@ class Machine:
         if k == 'idx':
             bv = self.ev(e['b'], env, c)
             iv = self.ev(e['i'], env, c)
+            b0 = strip(e['b'])
+            if b0.get('k') == 'var' and b0.get('id') in self.local_arrays and isinstance(iv, int):
+                size, aname = self.local_arrays[b0['id']]
+                if not 0 <= iv < size:
+                    env.viol.append(('buffer:index outside a fixed local array', e.get('l', 0), '`%s` is accessed with index %d but `%s` has %d elements (one byte past a stack buffer for a name / number that long)' % (pe(e)[:40], iv, aname, size)))
             if isinstance(bv, tuple) and iv is not U and not isinstance(iv, tuple):
                 arr = self.array_of(bv[1], env)
                 j = bv[2] + iv
